@@ -34,7 +34,7 @@ CLAIMED = {
          "Exploration: complete for the hand-rolled binary search over all table lengths 0..=256 (thorough 600) x every rank x 3 trailers; random valid zones anywhere in i64 queried at every transition -1/0/+1 on both time scales and extremes; tables up to 2.6e5 entries. The returned type must equal the expected slot's type (which of several equal slots is returned is only counted), errors by kind, from_timespec fields = O-cal(instant+offset).",
          "O-zone/O-leap/O-rule models; leap zones within 2^32 s of the i64 limits and 'overlapping' rules carry no claim.", "DESIGN.md §5 C03"),
  'C05': ("proptest over valid zones of all shapes (incl. dense, leap-second, zic-aligned zones) x model-derived local times; two oracles: timeline model and round trip through the crate's own forward lookup (metamorphic/inverse relation)",
-         "Exploration: for each generated zone ~48 local times placed on every event's two clocks +- seconds/hours, New Year, random and second-60 variants; the valid results must equal, in order and with their types, the instants at which the zone's clock shows that time (model), convert back through the forward lookup to the searched fields, be complete and duplicate-free w.r.t. the forward lookup, and be unique() exactly when single.",
+         "Exploration: for each generated zone ~48 local times placed on every event's two clocks +- seconds/hours, New Year, random and second-60 variants; the valid results must equal, in order and with their types, the instants at which the zone's clock shows that time (model), convert back through the forward lookup to the searched fields, be complete and duplicate-free w.r.t. the forward lookup, and be unique() exactly when single - through the allocating search and through find_n with one buffer kept across the searches of a case (still holding the previous result).",
          "Zones valid by construction from O-leap/O-rule; 'overlapping' rules excluded as known finding KF-C05-OVERLAP (probe printed); |year| > i32::MAX-200: only error kind asserted.", "DESIGN.md §5 C05"),
  'C06': ("same generated cases as C05, checked against the model's event list: exact gap entries, strict ascending order, earliest/latest/unique semantics",
          "Exploration: exactly one Skipped entry per event with off_after > off_before and T+off_before <= L < T+off_after (both halves = T on the clock before/after, same nanoseconds), none otherwise (coincident rule transitions cancel; last table event ignored without trailer); whole list strictly ascending; earliest/latest/unique as documented.",
@@ -43,25 +43,25 @@ CLAIMED = {
          "Exploration: the invariant 'fields = O-cal(unix + offset), second 60 = next minute, getters consistent' is checked on every DateTime produced by any constructor and by the search (also inside C03/C05/C06/C17); acceptance/refusal of DateTime::new and from_timespec_and_local decided by the model; projection preserves (unix, ns) and yields the model's type; ==/partial_cmp depend only on (unix, ns) over all pairs of pools; searches at the range ends never return instants outside the range.",
          "O-cal/O-zone; from_timespec_and_local's documented acceptance rule (instant+offset representable).", "DESIGN.md §5 C14"),
  'C17': ("same generated cases as C05 x every buffer length 0..=k+2 with stale pre-fill from the previous search (2-step histories); differential against the allocating search, field by field",
-         "Exploration: find_n into buffers of every length n in 0..=k+2, pre-filled with the previous search's entries: data() = first min(n,k) results (deep field compare incl. both halves of gaps), count()=k, is_exhaustive iff n>=k, untouched tail slots, same error kind, and unique/earliest/latest equal to the allocating search when exhaustive.",
+         "Exploration: find_n into buffers of every length n in 0..=k+2, pre-filled with the previous search's entries: data() = first min(n,k) results (deep field compare incl. both halves of gaps), count()=k, is_exhaustive iff n>=k, untouched tail slots, same error kind, and unique/earliest/latest equal to the allocating search when exhaustive; every searched tuple with one field made invalid is refused by both entry points with the same date-time error.",
          "The allocating search is the reference (itself checked by C05/C06).", "DESIGN.md §5 C17"),
  'C08': ("model zones -> independent TZif writer (v1/v2/v3, decoy 32-bit block, shared/suffix designations, all indicator combinations) -> decoder; 14 single-defect corruption classes decided by an independent strict reader; every real tzdata file and its truncations (differential against the reader)",
-         "Exploration: generated zones written by an independent writer must decode to exactly TimeZone::new(parts); each listed format violation must be rejected; every other byte-level outcome (truncations, count edits, byte flips, footer edits) must equal the reference decoding through an independent strict reader + O-tzstr; all 894 real tzdata 2025b files decode to what the reader reads, as do all prefixes of a sample (thorough: of all).",
+         "Exploration: generated zones written by an independent writer must decode to exactly TimeZone::new(parts); each listed format violation must be rejected; every other byte-level outcome (truncations, count edits, byte flips, footer edits) must equal the reference decoding through an independent strict reader + O-tzstr; all 894 real tzdata 2025b files decode to what the reader reads, as do all prefixes of a sample (thorough: of all). One byte string in four (and every must-reject case) is also decoded through the other public entry point - a file found by TimeZoneSettings under six kinds of name, incl. names that are complete TZ descriptions - and must give the same zone or a decoding error.",
          "Writer/reader written from RFC 8536 §3 (round-trip self-test per case); zone-level validity inside the reference decoding is delegated to the crate's constructor (C13's subject); mixed version bytes carry no claim.", "DESIGN.md §5 C08"),
  'C09': ("grammar-directed sentence generation with independent spelling choices (both modes) + bounded-exhaustive token strings (<= 5 tokens of a 24-token alphabet) + one-character mutations, through three observation paths, against an independent recursive-descent recogniser/evaluator",
          "Exploration: accept <=> sentence of the grammar in the path's mode (and order-stable rule), decoded rule equal to the evaluator's (names, negated offsets, default +1 h, default 02:00:00, day notations, signed/extended times only in v3 footers); complete for all token sequences of length <= 5 (8.3e6 strings x 3 paths), sampled for long sentences and mutations.",
          "O-tzstr recogniser (self-tested against its own generator); whitespace stripping of the two observation layers is applied before the oracle.", "DESIGN.md §5 C09"),
- 'C20': ("model-based proptest: TZ values x virtual file systems x directory lists through the recording read function, against a reference resolver written from tzset(3)",
-         "Exploration: exact sequence of opened paths, outcome class (file chosen / decoded as description / empty / I/O error / decoding error without fallback / description refused) and decoded zone must equal the reference resolver's for generated TZ values (padded, ':'-prefixed, absolute, relative, sentence-and-filename), directory lists and virtual file systems populated on the candidate paths; parse_local() reads /etc/localtime only.",
+ 'C20': ("model-based proptest: TZ values x virtual file systems x directory lists through the recording read function, against a reference resolver written from tzset(3); stateful histories (several resolutions through one settings value, each compared with the model)",
+         "Exploration: exact sequence of opened paths, outcome class (file chosen / decoded as description / empty / I/O error / decoding error without fallback / description refused) and decoded zone must equal the reference resolver's for generated TZ values (padded, ':'-prefixed, absolute, relative, sentence-and-filename), directory lists and virtual file systems populated on the candidate paths; parse_local() reads /etc/localtime only. Histories: one settings value resolves 2-6 values in sequence over a file system holding the same names under several directories; every step must equal the reference's answer for that value alone.",
          "Reference resolver transcribed from the property text; virtual file system is harness state.", "DESIGN.md §5 C20"),
  'C07': ("coverage-guided fuzzing (libFuzzer, 3 targets: TZif bytes, TZ-string bytes, structured API via arbitrary) with semantic oracles inside the targets + structured enumeration (all truncations / hostile header counts / byte flips of every real file) + counting allocator; two build configurations",
-         "Exploration: libFuzzer campaigns from committed seed corpora with a fixed number of runs on three targets whose bodies also run the C08 reference decoding, the C09 recogniser and the owned-vs-borrowed constructor comparison; coverage-independent enumeration of every truncation point and every hostile header count of all 894 real files and byte flips of a sample; random structured API arguments biased to integer extremes; every public query on every accepted zone. A panic, overflow trap, out-of-bounds, abort, or heap use above 16*len+4 KiB is a violation. Run with overflow checks/debug assertions on and (structured half) off.",
+         "Exploration: libFuzzer campaigns from committed seed corpora with a fixed number of runs on three targets whose bodies also run the C08 reference decoding, the C09 recogniser and the owned-vs-borrowed constructor comparison; coverage-independent enumeration of every truncation point and every hostile header count of all 894 real files and byte flips of a sample; random structured API arguments biased to integer extremes; every public query on every accepted zone, incl. a grid of invalid calendar fields through find / find_n / DateTime::new / UtcDateTime::new (an Ok there is reported like a panic). A panic, overflow trap, out-of-bounds, abort, or heap use above 16*len+4 KiB is a violation. Run with overflow checks/debug assertions on and (structured half) off.",
          "No 32-bit target available; libFuzzer campaigns are only approximately reproducible from the seed (the saved artifact is the reproducible unit); time-outs are inconclusive.", "DESIGN.md §5 C07"),
  'C10': ("differential testing against two independent implementations (glibc localtime_r, CPython zoneinfo) on every file of the vendored tzdata snapshot: generated query lists (every transition -1/0/+1, random and footer-governed instants, local times around transitions) answered by tz-rs and by reference servers reading the same bytes; random TZ strings vs glibc's parser",
-         "Exploration: (offset, abbreviation) at every recorded transition -1/0/+1, random instants 1900-2500 and footer-governed instants of all 447 main-tree files vs glibc and zoneinfo, and of all 447 right/ files vs glibc (through the leap model); isdst and broken-down fields vs glibc; mktime instant sets for local times within 3 h of post-1970 transitions vs the sets implied by both references; generated TZ strings vs glibc's TZ-environment parser inside the domain where glibc is itself right.",
+         "Exploration: (offset, abbreviation) at every recorded transition -1/0/+1, random instants 1900-2500 and footer-governed instants of all 447 main-tree files vs glibc and zoneinfo, and of all 447 right/ files vs glibc (through the leap model); isdst and broken-down fields vs glibc; mktime instant sets for local times within 3 h of every transition (main tree) vs the sets implied by both references, and candidate-instant membership around every post-1972 transition of the right/ tree vs glibc; generated TZ strings vs glibc's TZ-environment parser inside the domain where glibc is itself right.",
          "Agreement is with glibc and CPython as installed, on tzdata 2025b as vendored; rule-less files after their last transition are excluded (tz-rs must answer NoAvailableLocalTimeType there).", "DESIGN.md §5 C10"),
  'C15': ("generated multi-threaded programs (op sequences over shared zones; sequential vs reversed / permuted / 2-16 threads / child process with perturbed environment) with per-op result digests; compile-time auto-trait + Freeze assertions; auxiliary (non-PBT) static audit",
-         "Exploration of the observable half: every operation of each generated program must return, in any order, on any of 2..16 concurrently running threads sharing the zones by reference, and in a process with TZ/TZDIR/LANG/cwd changed, exactly what it returns in the plain sequential run (digest of the complete Debug rendering). Settings operations use four virtual file systems giving the same names different contents, so a cache keyed on too little collides. Compile-time: Send + Sync + 'static + Freeze for every public type. The schedule is the OS's: rare interleavings and behaviour-preserving global state are out of reach; an auxiliary symbol/token audit (labelled non-PBT) covers the latter.",
+         "Exploration of the observable half: every operation of each generated program must return, in any order, on any of 2..16 concurrently running threads sharing the zones by reference, and in a process with TZ/TZDIR/LANG/cwd changed, exactly what it returns in the plain sequential run (digest of the complete Debug rendering). Settings operations use four virtual file systems giving the same names different contents, so a cache keyed on too little collides. Compile-time: Send + Sync + 'static + Freeze for every public type, in each of the three feature configurations of tz-rs. The schedule is the OS's: rare interleavings and behaviour-preserving global state are out of reach; an auxiliary symbol/token audit (labelled non-PBT) covers the latter.",
          "OS-chosen schedules; digest = hash of Debug output; auxiliary audit is not the deciding evidence.", "DESIGN.md §5 C15"),
  'C19': ("differential testing across build configurations: one generated corpus through a probe built with tz-rs features {}, {alloc}, {alloc,std} and through the std harness; transcript equality; build success per configuration",
          "Exploration: a generated corpus of cases (zones, instants, civil times, nanosecond counts, buffer lengths) is run through the allocation-free API in three separately built feature configurations and in the harness; per-case transcripts (incl. Display with width/precision/fill) must be identical, and every configuration must build.",
@@ -99,7 +99,7 @@ manifest = {
         {"name": "libfuzzer", "path": "/verif/fuzz", "serves_properties": ["C07"], "kind_free_text": "cargo-fuzz crate with three libFuzzer targets (tzif, tzstr, api) whose bodies live in vlib::fuzz_entry; driven by checks/C07.sh"},
         {"name": "references", "path": "/verif/refs", "serves_properties": ["C10"], "kind_free_text": "glibc_ref.c (localtime_r server) and zoneinfo_ref.py (CPython zoneinfo server): independent implementations used as differential oracles"},
         {"name": "cfgprobe", "path": "/verif/cfgprobe", "serves_properties": ["C19"], "kind_free_text": "probe binary built three times against tz-rs with features {}, {alloc}, {alloc,std}"},
-        {"name": "autotraits", "path": "/verif/autotraits", "serves_properties": ["C15"], "kind_free_text": "compile-time Send + Sync + 'static + Freeze assertions for every public type (nightly)"},
+        {"name": "autotraits", "path": "/verif/autotraits", "serves_properties": ["C15"], "kind_free_text": "compile-time Send + Sync + 'static + Freeze assertions for every public type (nightly), built once per feature configuration of tz-rs"},
         {"name": "vcheck", "path": "/verif/vlib", "serves_properties": sorted(CLAIMED), "kind_free_text": "Rust harness: independent oracles + enumerations + proptest (sharded, seeded, shrinking) + replay; built against /repo by path dependency on every ./check"},
     ],
     "checks": [entry(p['id']) for p in props if p['id'] in CLAIMED],
